@@ -27,6 +27,7 @@ structure Filled (n : Nat) (s : State) : Prop where
   cw : s.cw = 0
   cr : s.cr = 0
   waitS : s.waitS = 0
+  waitSD : s.waitSD = 0
   subs : ∃ u, s.subs = [u] ∧ u.buf.length = n ∧ u.pc = .idle ∧ u.ctxDone = false ∧ u.exitClosed = false
 
 theorem reach_run {cfg : Cfg} {s s' : State} (hr : Reach (lts cfg) s) :
@@ -54,22 +55,22 @@ def roundHead (s : State) (k v : Nat) : List Label :=
 theorem fill_round {c n : Nat} {s : State} (h : Filled n s) (hn : n < c) :
     ∃ s', runFrom (cfgOrig c) s (roundHead s 0 0 ++ [.send, .proc .cbReturn, .proc (.peek none)]) = some s' ∧
       Filled (n + 1) s' := by
-  obtain ⟨hq, htok, hreset, hstop, hsc, hpc, hcpc, hepc, hcl, hcq, hcl', hcw, hcr, hw, u, hsubs, hlen, hupc, huc, hux⟩ := h
-  obtain ⟨p, subs, epc, closed, cq, cl, cw, cr, waitS, retS, out, calls⟩ := s
+  obtain ⟨hq, htok, hreset, hstop, hsc, hpc, hcpc, hepc, hcl, hcq, hcl', hcw, hcr, hw, hwd, u, hsubs, hlen, hupc, huc, hux⟩ := h
+  obtain ⟨p, subs, epc, closed, cq, cl, cw, cr, waitS, waitSD, retS, out, calls⟩ := s
   obtain ⟨q, token, reset, stopped, stopClosed, pc, cpc, now, nextId, log, timer, readAt, armAt⟩ := p
-  simp only at hq htok hreset hstop hsc hpc hcpc hepc hcl hcq hcl' hcw hcr hw hsubs
-  subst hq htok hreset hstop hsc hpc hcpc hepc hcl hcq hcl' hcw hcr hw hsubs
+  simp only at hq htok hreset hstop hsc hpc hcpc hepc hcl hcq hcl' hcw hcr hw hwd hsubs
+  subst hq htok hreset hstop hsc hpc hcpc hepc hcl hcq hcl' hcw hcr hw hwd hsubs
   let r : It := ⟨0, now + 10, 0, nextId⟩
   refine ⟨{ p := { q := [], token := .free, reset := false, stopped := false, stopClosed := false, pc := .absent,
                    cpc := .idle, now := now + 10, nextId := nextId + 1,
                    log := .exec r (now + 10) :: .pop r :: .enq r :: log, timer := timer, readAt := now + 10,
                    armAt := armAt },
             subs := [{ u with buf := u.buf ++ [r] }], epc := .idle, closed := false, cq := 0, cl := 0, cw := 0,
-            cr := 0, waitS := 0, retS := retS, out := out ++ [r], calls := (nextId, now) :: calls }, ?_, ?_⟩
+            cr := 0, waitS := 0, waitSD := 0, retS := retS, out := out ++ [r], calls := (nextId, now) :: calls }, ?_, ?_⟩
   have h10 : now ≤ now + 10 := by omega
   have h0 : now + 10 - (now + 10) = 0 := by omega
   · simp [r, h10, h0, runFrom, roundHead, cfgOrig, step, procStep, Processor.step, process, enqGuard, lookup, remove, Queue.insert,
-      IsHead, IsMin, pop, halfMs, Kit.Generated.C06.runNowMarginNs, execLock, send, Sub.inList, hupc, hlen, hn]
+      IsHead, IsMin, pop, halfMs, Kit.Generated.C06.runNowMarginNs, satDur, maxDur, minDur, execLock, send, Sub.inList, hupc, hlen, hn]
   · constructor <;> simp [hlen, hupc, huc, hux]
 
 theorem filled_zero (c : Nat) : ∃ s, Reach (lts (cfgOrig c)) s ∧ Filled 0 s := by
@@ -104,19 +105,20 @@ structure Wedged (c : Nat) (s : State) : Prop where
   cw : s.cw = 0
   cr : s.cr = 0
   waitS : s.waitS = 1
+  waitSD : s.waitSD = 0
   due : ∃ x ∈ s.p.q, x.time ≤ s.p.now
 
 /-- In a wedged state no internal step is enabled, whatever the clock shows. -/
 theorem wedged_stuck {c : Nat} {s : State} (h : Wedged c s) (t : Int) (l : Label) (hl : l.isInternal = true) :
     step (cfgOrig c) { s with p := { s.p with now := t } } l = none := by
-  obtain ⟨⟨r, hepc, hpc⟩, ⟨u, hsubs, hlen, hupc, huc, hux⟩, hcl, htok, hcpc, hcq, hcl', hcw, hcr, hw, _⟩ := h
+  obtain ⟨⟨r, hepc, hpc⟩, ⟨u, hsubs, hlen, hupc, huc, hux⟩, hcl, htok, hcpc, hcq, hcl', hcw, hcr, hw, hwd, _⟩ := h
   have hget : ∀ i, s.subs[i]? = if i = 0 then some u else none := by
     intro i; rw [hsubs]; cases i <;> simp
   cases l
   case proc pl =>
     cases pl <;> simp_all [step, procStep, Processor.step, Label.isInternal, Processor.Label.isInternal, Processor.Label.isLoop]
   all_goals
-    simp_all [step, execLock, send, skipExit, skipClose, skipGone, subAcquire, lockFree, fwdTake, fwdDropCtx, fwdDropClose,
+    simp_all [step, execLock, send, skipExit, skipClose, skipGone, subAcquire, subAcquireDone, lockFree, fwdTake, fwdDropCtx, fwdDropClose,
       fwdExitCtx, fwdExitClose, fwdCloseExit, fwdRemove, closeLock, closeReturn, Label.isInternal, Sub.inList, cfgOrig]
   all_goals (try (split <;> simp_all))
 
@@ -128,11 +130,11 @@ def wedgeTail (s : State) : List Label :=
 
 theorem wedge_from_full {c : Nat} {s : State} (h : Filled c s) :
     ∃ s', runFrom (cfgOrig c) s (wedgeTail s) = some s' ∧ Wedged c s' := by
-  obtain ⟨hq, htok, hreset, hstop, hsc, hpc, hcpc, hepc, hcl, hcq, hcl', hcw, hcr, hw, u, hsubs, hlen, hupc, huc, hux⟩ := h
-  obtain ⟨p, subs, epc, closed, cq, cl, cw, cr, waitS, retS, out, calls⟩ := s
+  obtain ⟨hq, htok, hreset, hstop, hsc, hpc, hcpc, hepc, hcl, hcq, hcl', hcw, hcr, hw, hwd, u, hsubs, hlen, hupc, huc, hux⟩ := h
+  obtain ⟨p, subs, epc, closed, cq, cl, cw, cr, waitS, waitSD, retS, out, calls⟩ := s
   obtain ⟨q, token, reset, stopped, stopClosed, pc, cpc, now, nextId, log, timer, readAt, armAt⟩ := p
-  simp only at hq htok hreset hstop hsc hpc hcpc hepc hcl hcq hcl' hcw hcr hw hsubs
-  subst hq htok hreset hstop hsc hpc hcpc hepc hcl hcq hcl' hcw hcr hw hsubs
+  simp only at hq htok hreset hstop hsc hpc hcpc hepc hcl hcq hcl' hcw hcr hw hwd hsubs
+  subst hq htok hreset hstop hsc hpc hcpc hepc hcl hcq hcl' hcw hcr hw hwd hsubs
   let r : It := ⟨0, now + 10, 0, nextId⟩
   let r2 : It := ⟨1, now + 20, 1, nextId + 1⟩
   have h10 : now ≤ now + 10 := by omega
@@ -144,10 +146,10 @@ theorem wedge_from_full {c : Nat} {s : State} (h : Filled c s) :
                    log := .enq r2 :: .exec r (now + 10) :: .pop r :: .enq r :: log, timer := timer,
                    readAt := now + 10, armAt := armAt },
             subs := [{ u with pc := .wantLock, ctxDone := true, exitClosed := false }], epc := .sending r 0,
-            closed := false, cq := 1, cl := 0, cw := 0, cr := 0, waitS := 1, retS := retS, out := out ++ [r],
+            closed := false, cq := 1, cl := 0, cw := 0, cr := 0, waitS := 1, waitSD := 0, retS := retS, out := out ++ [r],
             calls := (nextId + 1, now + 10) :: (nextId, now) :: calls }, ?_, ?_⟩
   · simp [r, r2, h10, h0, h20, h30, wedgeTail, runFrom, roundHead, cfgOrig, step, procStep, Processor.step, process, enqGuard,
-      lookup, remove, Queue.insert, IsHead, IsMin, pop, halfMs, Kit.Generated.C06.runNowMarginNs, execLock, cancel,
+      lookup, remove, Queue.insert, IsHead, IsMin, pop, halfMs, Kit.Generated.C06.runNowMarginNs, satDur, maxDur, minDur, execLock, cancel,
       fwdExitCtx, fwdCloseExit, subCall, closeCall, setSub, hupc]
   · constructor <;> simp [hlen, r2]
 
